@@ -159,6 +159,11 @@ fn c01_affine3(s: R, sx: R, sy: R, sz: R, t: Vector3<R>, p: Point3<R>, v: Vector
     let m3 = Matrix3::from_diagonal(Vector3::new(sx, sy, sz));
     vassert_eq("m3.p", Transform::<Point3<R>>::transform_point(&m3, p), Point3::new(sx * p.x, sy * p.y, sz * p.z));
     vassert_eq("m3.v", Transform::<Point3<R>>::transform_vector(&m3, v), Vector3::new(sx * v.x, sy * v.y, sz * v.z));
+    let (o, i) = (R(0.0), R(1.0));
+    vassert_eq("Matrix4::from_scale entries", a4(ms), [[s, o, o, o], [o, s, o, o], [o, o, s, o], [o, o, o, i]]);
+    vassert_eq("Matrix4::from_nonuniform_scale entries", a4(mn), [[sx, o, o, o], [o, sy, o, o], [o, o, sz, o], [o, o, o, i]]);
+    vassert_eq("Matrix4::from_translation entries", a4(mt), [[i, o, o, o], [o, i, o, o], [o, o, i, o], [t.x, t.y, t.z, i]]);
+    vassert_eq("Matrix3::from_scale (3-D) = from_nonuniform_scale(s, s)", a3(Matrix3::from_scale(s)), a3(Matrix3::from_nonuniform_scale(s, s)));
     vcover("end");
 }
 fn c01_affine2(s: R, sx: R, sy: R, t: Vector2<R>, p: Point2<R>, v: Vector2<R>) {
@@ -171,6 +176,11 @@ fn c01_affine2(s: R, sx: R, sy: R, t: Vector2<R>, p: Point2<R>, v: Vector2<R>) {
     let mt = Matrix3::from_translation(t);
     vassert_eq("transl.p", Transform::<Point2<R>>::transform_point(&mt, p), Point2::new(p.x + t.x, p.y + t.y));
     vassert_eq("transl.v", Transform::<Point2<R>>::transform_vector(&mt, v), v);
+    // and entry by entry: these are homogeneous 2-D matrices, the last diagonal entry is 1 (not the scale factor)
+    let (o, i) = (R(0.0), R(1.0));
+    vassert_eq("Matrix3::from_scale entries", a3(ms), [[s, o, o], [o, s, o], [o, o, i]]);
+    vassert_eq("Matrix3::from_nonuniform_scale entries", a3(mn), [[sx, o, o], [o, sy, o], [o, o, i]]);
+    vassert_eq("Matrix3::from_translation entries", a3(mt), [[i, o, o], [o, i, o], [t.x, t.y, i]]);
     vcover("end");
 }
 // a general Matrix4 acts on points with the perspective divide and on vectors without translation
